@@ -1904,4 +1904,35 @@ theorem locNorm_of_normal (comps : List Str) (hne : comps ≠ []) (h : ∀ c ∈
   simp [List.dropWhile, hcl]
 
 
+
+/-! ## the bounded symlink loop -/
+
+/-- when the loop over the symlinks ends normally, no symlink of its result lies below another one -/
+theorem symLoop_settled (fuel : Nat) (syms F : List Obj) (h : symLoop fuel syms = some F) :
+    ∀ x ∈ F, childNodes F x.loc = [] := by
+  induction fuel generalizing syms with
+  | zero => simp [symLoop] at h
+  | succ fuel ih =>
+    unfold symLoop at h
+    simp only at h
+    split at h
+    · rename_i hnone
+      cases h
+      intro x hx
+      rw [List.find?_eq_none] at hnone
+      have := hnone x ((C28.sortBy_perm Obj.loc _).mem_iff.mpr hx)
+      simpa using this
+    · exact ih _ h
+
+/-- `convert_archive` raises only through the pass bound of the symlink loop: everything after it is total -/
+theorem convertArchive_none_iff (raw : List Obj) :
+    convertArchive raw = none ↔
+      symLoop (((setOf raw).filter Obj.isSym).length * ((setOf raw).filter Obj.isSym).length
+        + ((setOf raw).filter Obj.isSym).length + 2) (setOf ((setOf raw).filter Obj.isSym)) = none := by
+  unfold convertArchive
+  simp only
+  split
+  · rename_i h; simp [h]
+  · rename_i h; simp [h]
+
 end Pkgcore.C25
